@@ -935,10 +935,10 @@ func (w *verifWorld) opRestore() {
 			fired = "context-already-cancelled"
 		}
 		tarCalls = 0
-		pos := 0             // next archive of order expected to start
-		afterTar := false    // the next context check is RunWithContext's
-		iterOpen := false    // a loop iteration has started ...
-		iterEvent := false   // ... and has identified itself
+		pos := 0           // next archive of order expected to start
+		afterTar := false  // the next context check is RunWithContext's
+		iterOpen := false  // a loop iteration has started ...
+		iterEvent := false // ... and has identified itself
 		iterCancelled := false
 		expect := func(name string) {
 			if !isActive(name) {
